@@ -221,6 +221,26 @@ def parse_asan(err):
     return "seq-memory:unknown", err[-300:]
 
 
+# wall-clock limits (s) of one harness process; a normal program needs < 2 s (tsan < 10 s) even on a loaded machine
+LIMIT = {"tsan": 150, "simd": 90, "asan": 120}
+HANGS = {}
+
+
+def run_limited(cmd, inp, env, limit):
+    """like core.sh2 but keeps what the process wrote before it was killed at the limit"""
+    import subprocess
+    e = dict(os.environ)
+    e.update(env or {})
+    p = subprocess.Popen(cmd, stdin=subprocess.PIPE, stdout=subprocess.PIPE, stderr=subprocess.PIPE, env=e)
+    try:
+        out, err = p.communicate(inp, timeout=limit)
+        return p.returncode, out, err.decode("utf-8", "replace")
+    except subprocess.TimeoutExpired:
+        p.kill()
+        out, err = p.communicate()
+        return -9, out or b"", (err or b"").decode("utf-8", "replace")
+
+
 def confirm_sequential(ctx, lines, env):
     """A ThreadSanitizer report whose other side is malloc/free (heap block reuse), or a crash, may be an ordinary
     single-thread memory-safety defect that merely lands in another thread's memory.  Run every thread's list ALONE
@@ -230,11 +250,17 @@ def confirm_sequential(ctx, lines, env):
     except core.BuildError:
         return None
     tids = sorted(set(int(l.split()[0]) for l in lines))
+    import time
+    t_end = time.time() + 240          # total budget of the per-thread re-runs
     for t in tids:
+        if time.time() > t_end:
+            break
         own = ["0 " + l.split(" ", 1)[1] for l in lines if int(l.split()[0]) == t]
         e = dict(env)
         e["ASAN_OPTIONS"] = "detect_leaks=0 abort_on_error=0"
-        rc, out, err = sh2([exe], input=("\n".join(own) + "\n").encode(), timeout=600, env=e)
+        rc, out, err = run_limited([exe], ("\n".join(own) + "\n").encode(), e, 60)
+        if rc == -9:
+            return "seq-hang:solo", "a single thread's own operation list does not terminate (60 s) when run alone under ASan", own, err[-500:]
         sig, what = parse_asan(err)
         if sig:
             return sig, what, own, err[-2500:]
@@ -269,10 +295,23 @@ def run_program(ctx, exe, flavour, lines, env, tag):
     if flavour == "simd" and WATCH.get("file"):
         e["C15_WATCH"] = WATCH["file"]
         e["C15_WATCH_POLL"] = "1"
-    rc, out, err = sh2([exe], input=inp, timeout=600, env=e)
+    if HANGS.get(flavour, 0) >= 2:
+        ctx.count("skipped-after-hangs-" + flavour, 1, None)      # every further program would cost the full limit
+        return {"rc": None, "ok": False}
+    rc, out, err = run_limited([exe], inp, e, LIMIT.get(flavour, 120))
     text = out.decode("utf-8", "replace")
     res = {"rc": rc, "ok": True}
     replay = {"program": lines, "env": env, "flavour": flavour}
+    if rc == -9:
+        HANGS[flavour] = HANGS.get(flavour, 0) + 1
+        sig0, blk0 = parse_tsan(err)
+        phase = "concurrent" if "EV " not in text else ("isolation" if " ISO " in text else "solo")
+        ctx.violation("the harness did not terminate within %d s (%s build, %s phase, %d threads on their own instances): a library call "
+                      "hangs%s" % (LIMIT.get(flavour, 120), flavour, phase, len(set(x.split()[0] for x in lines)),
+                                   " after " + sig0 if sig0 else ""),
+                      dict(replay, stdout_tail=text[-1500:], stderr_tail=err[-1500:]), signature="hang:%s:%s" % (phase, flavour))
+        res["ok"] = False
+        return res
     sig, blk = parse_tsan(err)
     asig, awhat = parse_asan(err) if flavour == "asan" else (None, None)
     crashed = (rc != 0 or "DONE" not in text)
@@ -575,6 +614,14 @@ def binary_crosscheck(ctx, lib, ents):
 
 
 def run(ctx):
+    import signal
+
+    def _term(signum, frame):
+        raise RuntimeError("check terminated by signal %d: reporting what was found so far" % signum)
+    try:
+        signal.signal(signal.SIGTERM, _term)      # `timeout` sends SIGTERM: let ./check reach ctx.finish()
+    except ValueError:
+        pass
     rng = ctx.rng
     lib = ctx.build_lib("simd")
     ctx.regen(["Globals", "GlobalsBin"])
